@@ -965,3 +965,63 @@ Theorem C20_hist_example :
    end).
 Proof. exact (conj ex_cmsim_AB (conj ex_zmsim_AB (conj ex_zruns ex_hist_cache_exact))). Qed.
 Print Assumptions C20_hist_example.
+
+(** ** TDD (package TDDx): two TDD managers in ANY two configurations (operand order of terminal_bin = address
+    order of the node store, apply-cache implementation incl. none, its contents) fed the same client calls
+    (constants, variables, not, 8 connectives, ite, cofactors, clone / drop, gc, add_vars; Mgr/TddHist.v) are
+    observationally equal: same occupied slots, same value of every slot under every three-valued assignment,
+    same value tables, same answers of ==.  (Node ids and node counts of garbage are not observable.) *)
+From Coq Require Import List NArith PArith Bool Arith FMapPositive.
+From OxiVerif Require Import DD.Table DD.TableExtra DD.TableProofs DD.Build DD.BuildProofs DD.Apply DD.ApplyProofs
+  DD.ConfigApply DD.Tdd DD.ApplyTdd DD.ApplyTddBase DD.ApplyTddProofs DD.ApplyTddTop DD.TddAudit DD.TddAuditProofs
+  Mgr.History Mgr.TddHist Mgr.TddHistProofs Mgr.TddHistSim Mgr.TddHistExamples.
+Import ListNotations.
+
+Theorem C20_tdd_hist_config_independent :
+  forall (gt1 gt2 : ref -> ref -> bool) (C1 C2 : Type) (cget1 : C1 -> N -> list ref -> option ref)
+         (cadd1 : C1 -> N -> list ref -> ref -> C1) (cget2 : C2 -> N -> list ref -> option ref)
+         (cadd2 : C2 -> N -> list ref -> ref -> C2) (ce1 : C1) (ce2 : C2),
+  lossy cget1 cadd1 -> lossy cget2 cadd2 ->
+  (forall k a, cget1 ce1 k a = None) -> (forall k a, cget2 ce2 k a = None) ->
+  forall n ops, tops_pre_b gt1 C1 cget1 cadd1 ce1 (tinit C1 ce1 n) ops = true ->
+  exists st1 st2, trun gt1 C1 cget1 cadd1 ce1 (tinit C1 ce1 n) ops = Some st1 /\
+                  trun gt2 C2 cget2 cadd2 ce2 (tinit C2 ce2 n) ops = Some st2 /\
+                  tsim C1 C2 cget1 cget2 st1 st2.
+Proof. exact thist_config_independent. Qed.
+Print Assumptions C20_tdd_hist_config_independent.
+
+(* from any two related states (not only fresh managers), with the well-formedness of the requests transferred *)
+Theorem C20_tdd_hist_run :
+  forall (gt1 gt2 : ref -> ref -> bool) (C1 C2 : Type) (cget1 : C1 -> N -> list ref -> option ref)
+         (cadd1 : C1 -> N -> list ref -> ref -> C1) (cget2 : C2 -> N -> list ref -> option ref)
+         (cadd2 : C2 -> N -> list ref -> ref -> C2) (ce1 : C1) (ce2 : C2),
+  lossy cget1 cadd1 -> lossy cget2 cadd2 ->
+  (forall k a, cget1 ce1 k a = None) -> (forall k a, cget2 ce2 k a = None) ->
+  forall ops (st1 : tstate C1) (st2 : tstate C2), tsim C1 C2 cget1 cget2 st1 st2 ->
+  tops_pre_b gt1 C1 cget1 cadd1 ce1 st1 ops = true ->
+  exists st1' st2', trun gt1 C1 cget1 cadd1 ce1 st1 ops = Some st1' /\
+                    trun gt2 C2 cget2 cadd2 ce2 st2 ops = Some st2' /\
+                    tsim C1 C2 cget1 cget2 st1' st2' /\ tops_pre_b gt2 C2 cget2 cadd2 ce2 st2 ops = true.
+Proof. exact tsim_run. Qed.
+Print Assumptions C20_tdd_hist_run.
+
+Theorem C20_tdd_hist_observe :
+  forall (C1 C2 : Type) (cget1 : C1 -> N -> list ref -> option ref) (cget2 : C2 -> N -> list ref -> option ref)
+         (st1 : tstate C1) (st2 : tstate C2), tsim C1 C2 cget1 cget2 st1 st2 ->
+  (forall x, occupied (t_s C1 st1) x = occupied (t_s C2 st2) x) /\
+  (forall x r1 r2, tslot (t_s C1 st1) x = Some r1 -> tslot (t_s C2 st2) x = Some r2 ->
+     (forall av : nat -> tri, tfun_of (t_s C1 st1) r1 av = tfun_of (t_s C2 st2) r2 av) /\
+     td_vtable (t_s C1 st1) r1 = td_vtable (t_s C2 st2) r2) /\
+  (forall x y e1 e1' e2 e2',
+     hget (s_handles (t_s C1 st1)) x = Some e1 -> hget (s_handles (t_s C1 st1)) y = Some e1' ->
+     hget (s_handles (t_s C2 st2)) x = Some e2 -> hget (s_handles (t_s C2 st2)) y = Some e2' ->
+     (e1 = e1' <-> e2 = e2')).
+Proof. exact tsim_observe. Qed.
+Print Assumptions C20_tdd_hist_observe.
+
+Theorem C20_tdd_example :
+  tops_pre_b gtA acache ac_get ac_add [] (tinit acache [] 2) ex_ops = true /\
+  (ex_runA = Some ex_stA /\ ex_runB = Some ex_stB) /\
+  tsim acache unit ac_get nc_get ex_stA ex_stB.
+Proof. exact (conj ex_ops_pre (conj ex_runs_defined ex_sim)). Qed.
+Print Assumptions C20_tdd_example.
